@@ -66,8 +66,16 @@ def import_closure(mods):
 
 def proof_layer(pid, cfg, thorough):
     """returns dict(obligations, discharged, theorems, problems, checker_cmd)"""
-    mods = cfg.get('lean_modules', [f'ClockBound.Properties.{pid}'])
+    mods = list(cfg.get('lean_modules', [f'ClockBound.Properties.{pid}']))
     problems = []
+    consts_note = None
+    if cfg.get('consts_module'):
+        # supplementary tie: constants re-extracted from the source; agreement theorems closed by `decide`.
+        # If the extraction patterns no longer match (code restructured) the supplementary tie is
+        # unavailable for this run and said so in the evidence; the correspondence still decides.
+        rcc, outc = sh([sys.executable, f'{ROOT}/tools/translate_consts.py'])
+        if rcc == 0: mods.append(cfg['consts_module'])
+        else: consts_note = 'unavailable: ' + outc.strip()[-300:]
     with Lock('lake'):
         rc, out = sh(['lake', 'build'] + mods + ['cbmodel'], cwd=LEAN, timeout=3000)
         if rc != 0:
@@ -129,7 +137,7 @@ def proof_layer(pid, cfg, thorough):
         ns = lean_namespace(path)
         for n in stmts.statements(path): names.append(f'{ns}.{n}' if ns else n)
     if problems and discharged == len(names): discharged = max(0, len(names) - 1)
-    return dict(obligations=len(names), discharged=discharged, theorems=thms, problems=problems, checker_cmd=cmd)
+    return dict(obligations=len(names), discharged=discharged, theorems=thms, problems=problems, checker_cmd=cmd, consts_tie=consts_note or 'regenerated and checked')
 
 
 # ----------------------------------------------------------------------------- implementation
@@ -378,7 +386,7 @@ def check(pid, tier, seed):
             'obligations': proof['obligations'], 'discharged': proof['discharged'],
             'checker_cmd': proof['checker_cmd'],
             'trusted_base': cfg.get('trusted_base', []) + props.COMMON_TRUSTED,
-            'theorems': proof['theorems'],
+            'theorems': proof['theorems'], 'translated_constants_tie': proof.get('consts_tie'),
             'evaluations': len(relevant), 'distinct_nontrivial': len(nontriv),
             'rule': cfg['rule'], 'samples': samples,
             'traces_validated_against_impl': len(relevant),
